@@ -328,6 +328,37 @@ func TestC02(t *testing.T) {
 			}
 			checkDirAsMap(c, "C02", node, model, extra, pads, 3000)
 			st.Closed = false
+			if sharded && len(names) <= 2100 {
+				// a link system that preloads every block it loads (its NodeReifier is the preloading UnixFS
+				// reifier): child shards arrive already measured; the directory is the same map
+				ls3 := st.LinkSystem(true)
+				ls3.NodeReifier = ls3.KnownReifiers["unixfs-preload"]
+				if raw3, err := loadRaw(st.LinkSystem(false), root); err == nil {
+					var pre ipld.Node
+					var perr error
+					if c.Guard("unixfs-preload under a preloading NodeReifier", func() {
+						pre, perr = ls3.KnownReifiers["unixfs-preload"](ipld.LinkContext{Ctx: bg}, raw3, ls3)
+					}) {
+						if perr != nil || pre == nil {
+							c.Violation("C02|reify", "unixfs-preload under a link system whose NodeReifier preloads: %v", perr)
+						} else {
+							c.Count("directories_under_preloading_nodereifier", 1)
+							runDirHistory(c, "C02", pre, model, pads, 60)
+							for i := 0; i < len(names); i += 1 + len(names)/200 {
+								v, err := pre.LookupByString(names[i])
+								if err != nil {
+									c.Violation("C02|member-not-found", "LookupByString(%q) of a member on a directory preloaded under a preloading NodeReifier: %v", names[i], err)
+									break
+								}
+								if got, e := asCid(v); e != nil || !got.Equals(model[names[i]]) {
+									c.Violation("C02|member-wrong-link", "LookupByString(%q) = %v on a directory preloaded under a preloading NodeReifier, want %v", names[i], got, model[names[i]])
+									break
+								}
+							}
+						}
+					}
+				}
+			}
 			if len(names) <= 700 {
 				// random histories of operations, each on a node of its own: one fresh, one that has been
 				// through everything above
